@@ -302,7 +302,7 @@ func RunFacts(repo, leanDir string) error {
 					if id, ok := sel.X.(*ast.Ident); ok {
 						switch {
 						case id.Name == "sort":
-							sorts = append(sorts, [2]string{f.rel, fn(x.Pos()) + ":" + sel.Sel.Name})
+							sorts = append(sorts, [2]string{f.rel + ":" + fn(x.Pos()), sel.Sel.Name})
 						case id.Name == "reflect":
 							reflects = append(reflects, [2]string{f.rel, fn(x.Pos()) + ":" + sel.Sel.Name})
 						}
@@ -370,7 +370,7 @@ func RunFacts(repo, leanDir string) error {
 	fmt.Fprintf(&sb, "/-- validator/rules: AddRule calls in file-name order (= package initialisation order) -/\ndef ruleRegistry : List String :=\n  %s\n\n", leanStrList(registry))
 	fmt.Fprintf(&sb, "/-- validator/rules: every `var X = Rule{Name: …}` -/\ndef ruleVars : List String :=\n  %s\n\n", leanStrList(ruleVars))
 	fmt.Fprintf(&sb, "/-- every `range` over a map (and reflect MapKeys/MapRange) in non-test code: (file, function:expr) -/\ndef mapRanges : List (String × String) :=\n  %s\n\n", leanPairs(mapRanges))
-	fmt.Fprintf(&sb, "/-- every call into package sort: (file, function:sortfunc) -/\ndef sortCalls : List (String × String) :=\n  %s\n\n", leanPairs(sorts))
+	fmt.Fprintf(&sb, "/-- every call into package sort: (file:function, sort function) -/\ndef sortCalls : List (String × String) :=\n  %s\n\n", leanPairs(sorts))
 	fmt.Fprintf(&sb, "/-- every explicit panic( in non-test code: (file, function) -/\ndef panicSites : List (String × String) :=\n  %s\n\n", leanPairs(panics))
 	fmt.Fprintf(&sb, "/-- every call into package reflect: (file, function:name) -/\ndef reflectCalls : List (String × String) :=\n  %s\n\n", leanPairs(reflects))
 	fmt.Fprintf(&sb, "/-- validator/schema.go: the directive names that may be redeclared -/\ndef builtinDirectiveNames : List String :=\n  %s\n\n", leanStrList(builtinDirs))
